@@ -200,6 +200,7 @@ func check(c Case) (o ev.Outcome) {
 func gen(t *rapid.T) Case {
 	o := ymodel.DefaultOpts()
 	o.Typedefs = rapid.IntRange(0, 3).Draw(t, "typedefs") == 0
+	o.ConfigTrueAnywhere = rapid.Bool().Draw(t, "config-true-anywhere")
 	set, _ := schema.Generate(t, o)
 	schema.AddAugments(t, set, 0, 3)
 	if rapid.IntRange(0, 5).Draw(t, "augment-chain") == 0 {
